@@ -75,6 +75,30 @@ class VarV:
         self.name = name
 
 
+class ElemV:
+    """The generic element of a variable list inside a loop over it: tt = the membership classes it may belong to.
+    Conditions on it are per-element (they split tt), not path conditions."""
+
+    __slots__ = ("tt", "nodup")
+
+    def __init__(self, tt: int, nodup: bool):
+        self.tt = tt
+        self.nodup = nodup
+
+
+class ElemCond:
+    """A per-element condition: the classes (rows) for which it is true."""
+
+    __slots__ = ("mask",)
+
+    def __init__(self, mask: int):
+        self.mask = mask
+
+
+class _ElemSkip(Exception):
+    pass
+
+
 class Cond:
     __slots__ = ("c",)
 
@@ -441,8 +465,44 @@ class Interp:
                     self.assign(s.target, x, env)
                     self.exec_block(s.body, env)
                 return
+            if isinstance(it, VS) and isinstance(s.target, ast.Name) and not s.orelse:
+                # a filter loop: the body is run once for the generic element; per-element tests split its classes
+                self.exec_elem_block(s.body, env, s.target.id, ElemV(it.tt, it.nodup))
+                return
             raise AnalysisError("loop over %s in %s is outside the interpreter's fragment" % (norm(s.iter), self.cur))
         raise AnalysisError("statement %s in %s is outside the interpreter's fragment" % (type(s).__name__, self.cur))
+
+    def exec_elem_block(self, stmts: List[ast.stmt], env: Dict[str, Any], var: str, el: "ElemV") -> None:
+        """Run loop-body statements for the generic element `el` (bound to `var`)."""
+        if el.tt & self.allowed == 0:
+            return
+        env[var] = el
+        for i, st in enumerate(stmts):
+            if isinstance(st, ast.If):
+                c = self.eval(st.test, env)
+                if isinstance(c, ElemCond):
+                    rest = stmts[i + 1:]
+                    for mask, body in ((c.mask, st.body), (neg(c.mask), st.orelse)):
+                        sub = ElemV(el.tt & mask, el.nodup)
+                        if sub.tt & self.allowed == 0:
+                            continue
+                        try:
+                            self.exec_elem_block(list(body) + list(rest), env, var, sub)
+                        except _ElemSkip:
+                            pass
+                    env[var] = el
+                    return
+                raise AnalysisError("loop over a variable list with a non-membership test in %s" % self.cur)
+            if isinstance(st, ast.Continue):
+                raise _ElemSkip()
+            if isinstance(st, (ast.Break, ast.Return, ast.Raise)):
+                raise AnalysisError("loop over a variable list leaves early in %s: outside the filter-loop fragment" % self.cur)
+            if isinstance(st, ast.Expr) and isinstance(st.value, ast.Call) and (self._is_ignorable_call(st.value) or (isinstance(st.value.func, ast.Attribute) and st.value.func.attr == "append")):
+                self.exec_stmt(st, env)
+                continue
+            if isinstance(st, ast.Pass) or (isinstance(st, ast.Expr) and isinstance(st.value, ast.Constant)):
+                continue
+            raise AnalysisError("statement %s in a loop over a variable list in %s is outside the filter-loop fragment" % (type(st).__name__, self.cur))
 
     def _is_ignorable_call(self, c: ast.Call) -> bool:
         f = c.func
@@ -484,8 +544,10 @@ class Interp:
                 ):
                     old = self.eval(idx.args[0], env)
                     if isinstance(old, VarV):
-                        new = VS((base.tt & neg(old.tt)) | val.tt, base.nodup and (base.tt & val.tt & self.allowed) == 0)
-                        self._store_back(base_node, new, env)
+                        # in place: every alias of the list object sees the edit (as in Python)
+                        nd = base.nodup and (base.tt & val.tt & self.allowed) == 0
+                        base.tt = (base.tt & neg(old.tt)) | val.tt
+                        base.nodup = nd
                         return
             raise AnalysisError("subscript store %s in %s is outside the fragment" % (norm(t), self.cur))
         raise AnalysisError("assignment target %s" % norm(t))
@@ -538,7 +600,7 @@ class Interp:
         if not e.elts:
             return VS(0, True)
         items = [self.eval(x, env) for x in e.elts]
-        if all(isinstance(x, VarV) for x in items):
+        if all(isinstance(x, (VarV, ElemV)) for x in items):
             tt = 0
             for x in items:
                 tt |= x.tt
@@ -605,12 +667,19 @@ class Interp:
     def ev_UnaryOp(self, e, env):
         v = self.eval(e.operand, env)
         if isinstance(e.op, ast.Not):
+            if isinstance(v, ElemCond):
+                return ElemCond(neg(v.mask))
             return Cond(c_not(self.to_cond(v, e.operand)))
         return Opaque("unary")
 
     def ev_BoolOp(self, e, env):
         # short-circuit semantics only matter for side effects; conditions here are pure
         vals = [self.eval(v, env) for v in e.values]
+        if vals and all(isinstance(v, ElemCond) for v in vals):
+            m = vals[0].mask
+            for v in vals[1:]:
+                m = (m & v.mask) if isinstance(e.op, ast.And) else (m | v.mask)
+            return ElemCond(m)
         cs = [self.to_cond(v, n) for v, n in zip(vals, e.values)]
         if isinstance(e.op, ast.And):
             return Cond(c_and(cs))
@@ -702,6 +771,8 @@ class Interp:
                 return Cond(res if isinstance(op, ast.Is) else c_not(res))
             return Cond(("op", norm(e)))
         if isinstance(op, (ast.In, ast.NotIn)):
+            if isinstance(l, ElemV) and isinstance(r, VS):
+                return ElemCond(r.tt if isinstance(op, ast.In) else neg(r.tt))
             if isinstance(l, VarV) and isinstance(r, VS):
                 c = ("E", l.tt & r.tt)
                 return Cond(c if isinstance(op, ast.In) else c_not(c))
@@ -884,10 +955,12 @@ class Interp:
             # list.remove deletes the first occurrence only: membership changes only if the list is duplicate-free
             if not base.nodup:
                 raise AnalysisError("list.remove on a list that may hold duplicates in %s" % self.cur)
-            self._store_back(base_node, VS(base.tt & neg(pos[0].tt), True), env)
+            base.tt = base.tt & neg(pos[0].tt)
             return NONE
-        if name == "append" and len(pos) == 1 and isinstance(pos[0], VarV):
-            self._store_back(base_node, VS(base.tt | pos[0].tt), env)
+        if name == "append" and len(pos) == 1 and isinstance(pos[0], (VarV, ElemV)):
+            x = pos[0]
+            base.nodup = base.nodup and (base.tt & x.tt & self.allowed) == 0 and (isinstance(x, VarV) or x.nodup)
+            base.tt = base.tt | x.tt
             return NONE
         if name == "append" and len(pos) == 1 and base.tt == 0:
             # `x = []` was read as an empty variable list; it is a plain list
